@@ -1513,6 +1513,26 @@ impl World {
                         }
                     }
                 }
+                // ... and so does the constructor that takes a URL (every fourth visit: it copies the store to disk)
+                if !self.light && self.op_index % 4 == 0 {
+                    if let Some((url, dir)) = url_copy(&self.reps[r].be.snapshot()) {
+                        match catch_unwind(AssertUnwindSafe(|| Melda::new_from_url_until(&url, &set))) {
+                            Ok(Ok(m3)) => {
+                                let o3 = obs_noblocks(&m3);
+                                if o3 != got {
+                                    fails.push(("C14", format!("a replica opened with new_from_url_until at {:?} differs from reload_until to the same heads: {}", anchors, first_diff(&got, &o3))));
+                                }
+                                *self.stats.entry("new_from_url_until".into()).or_insert(0) += 1;
+                            }
+                            Ok(Err(e)) => fails.push(("C14", format!("new_from_url_until at former heads {:?} failed: {}", anchors, msg_prefix(&e.to_string())))),
+                            Err(_) => {
+                                fails.push(("C14", format!("new_from_url_until at former heads {:?} aborted", anchors)));
+                                fails.push(("C08", format!("new_from_url_until at former heads {:?} aborted", anchors)));
+                            }
+                        }
+                        let _ = std::fs::remove_dir_all(&dir);
+                    }
+                }
                 // every revision of the loaded history stays retrievable
                 for u in m.get_all_objects() {
                     for (rev, par, _) in m.verif_tree_dump(&u).unwrap_or_default() {
@@ -1905,7 +1925,8 @@ impl World {
             }
         }
         // corruption of a pack after a replica has loaded it: later reads return the original content or an error
-        let packs: Vec<&String> = keys.iter().filter(|k| k.ends_with(".pack")).collect();
+        // (blocks too: a block damaged after it was loaded must not be passed on by meld under its old name)
+        let packs: Vec<&String> = keys.iter().filter(|k| k.ends_with(".pack") || k.ends_with(".delta")).collect();
         if !packs.is_empty() {
             let st = SimStore::from_items(items.clone());
             if let (Ok(mut live), Ok(orig)) = (Melda::new(st.dyn_adapter()), fresh_on(&items)) {
@@ -2046,6 +2067,24 @@ impl World {
             let f = fresh_obs(&union);
             if &f != a {
                 fails.push(("C01", format!("a fresh replica on a file copy differs from the synchronised replicas: {}", first_diff(a, &f))));
+            }
+            // a literal file copy: the items written into a directory, a replica opened there through its URL
+            if !self.light && self.op_index % 3 == 0 {
+                if let Some((url, dir)) = url_copy(&union) {
+                    match catch_unwind(AssertUnwindSafe(|| Melda::new_from_url(&url))) {
+                        Ok(Ok(mu)) => {
+                            let fu = obs_doc(&mu);
+                            if fu != f {
+                                fails.push(("C01", format!("a replica opened through a URL on a directory copy of the items differs from one opened on the items: {}", first_diff(&f, &fu))));
+                                fails.push(("C17", format!("a replica opened through a URL on a directory copy of the items differs from one opened on the items: {}", first_diff(&f, &fu))));
+                            }
+                            *self.stats.entry("new_from_url".into()).or_insert(0) += 1;
+                        }
+                        Ok(Err(e)) => fails.push(("C17", format!("new_from_url on a directory copy failed: {}", msg_prefix(&e.to_string())))),
+                        Err(_) => fails.push(("C08", "new_from_url on a directory copy aborted".into())),
+                    }
+                    let _ = std::fs::remove_dir_all(&dir);
+                }
             }
             // the same items once more: every hash table of the new replica is seeded independently
             let f2 = fresh_obs(&union);
@@ -2289,6 +2328,26 @@ fn causally_complete(intact: &Items) -> Items {
         })
         .map(|(k, v)| (k.clone(), v.clone()))
         .collect()
+}
+
+static URL_COUNT: std::sync::atomic::AtomicUsize = std::sync::atomic::AtomicUsize::new(0);
+
+/// the items written through the library's own URL factory into a scratch directory; returns (url, directory)
+fn url_copy(items: &Items) -> Option<(String, String)> {
+    let base = std::env::var("MVERIF_SCRATCH").unwrap_or_else(|_| "/tmp/mverif_scratch".into());
+    let n = URL_COUNT.fetch_add(1, std::sync::atomic::Ordering::SeqCst);
+    let dir = format!("{}/url{}_{}", base, std::process::id(), n);
+    let _ = std::fs::remove_dir_all(&dir);
+    std::fs::create_dir_all(&dir).ok()?;
+    let url = format!("file://{}", dir);
+    let a = melda::adapter::get_adapter(&url).ok()?;
+    for (k, v) in items {
+        if v.is_empty() {
+            continue; // (the directory backend treats an empty first write specially; not the point here)
+        }
+        a.write_object(k, v).ok()?;
+    }
+    Some((url, dir))
 }
 
 /// a revision or an object body is staged (a body can be staged without a revision: an object created and
